@@ -8,7 +8,7 @@ TECH = "deterministic simulation with fault injection (seeded search over schedu
 # property -> (claimed?, level text, level note, design ref, technique detail)
 CLAIMED = {
  "C20": dict(
-  text="Seeded exploration of (text, prefixes, nesting depth, division into Write calls, sink stop point / error kind) against an independent rendering with byte provenance; the simulated sink injects short writes and errors at every reachable output position. Sampling, not enumeration: a clean batch is evidence, not proof.",
+  text="Seeded exploration of (text, prefixes, nesting depth, division into Write calls, sink stop point / error kind) against an independent rendering with byte provenance; the simulated sink injects short writes (with and without an error) and errors at every reachable output position; texts of 0-24 runes, one case in 60 repeated up to about 512 / 4096 / 8192 bytes. Sampling, not enumeration: a clean batch is evidence, not proof.",
   note="Trusted: the harness's own 20-line renderer (cross-checked against indent.String on every case); the sink honours the io.Writer contract; behaviour after a failed Write is not examined.",
   ref="DESIGN.md §4 C20",
   tech="deterministic simulation: simulated io.Writer with seeded short-write/error faults + seeded chunking, reference model with byte provenance"),
@@ -53,12 +53,12 @@ CLAIMED = {
   ref="DESIGN.md §4 C11",
   tech="deterministic simulation: seeded load order / map order / re-Process histories over generated identity graphs, checked against a reference transitive closure"),
  "C13": dict(
-  text="Three seeded sub-explorations: (revisions) sets of (name, revision list) texts and importers/includers loaded in all orders (<= 5 texts) or 6 seeded orders against a reference binder; (files) simulated directory trees with candidates, near-miss names and storage faults against a reference chooser written from the documented rule, the opened path observed at the simulated disk; (split) a generated module distributed over 1-4 submodules must dump structurally equal to the unsplit module under load-order x map-order executions. Sampling (orders enumerated for small sets), not proof.",
+  text="Three seeded sub-explorations: (revisions) sets of (name, revision list) texts and importers/includers (one text possibly offered twice under one source name) loaded in all orders (<= 5 texts) or 6 seeded orders against a reference binder; (files) simulated directory trees with candidates, near-miss names and storage faults against a reference chooser written from the documented rule, the opened path observed at the simulated disk; (split) a generated module distributed over 1-4 submodules (nested includes; including each other under the ignore-circular-dependencies option) must dump structurally equal to the unsplit module under load-order x map-order executions. Sampling (orders enumerated for small sets), not proof.",
   note="Trusted: reference binder and chooser (props/c13.go), structural dump. Open finding C13-norev (revision-less + revisioned pair) is left out of random runs and replayed from known/. dir/... entries: weak oracle as documented in DESIGN.md.",
   ref="DESIGN.md §4 C13",
   tech="deterministic simulation: enumerated/seeded load orders, simulated disk with near-miss names and faults observed at the disk seam, split-vs-unsplit metamorphic runs under seeded schedules"),
  "C19": dict(
-  text="Seeded search over interleavings of real caller goroutines running the -race built, instrumented library: (K1) 2-4 independent load+Process+dump pipelines, (K2) 2-6 readers of one processed set issuing the read operations the property lists, incl. simultaneous first-time namespace lookups. The simulated scheduler decides who proceeds at every lock acquisition/release and, with seeded probability, at every function entry and loop head; a task may be descheduled while holding a lock. Oracles: Go race detector (exit 66, attributed by the RUN protocol, confirmed in a fresh process), per-operation equality with the sequential result, bounded progress. Sampling of schedules, not proof.",
+  text="Seeded search over interleavings of real caller goroutines running the -race built, instrumented library: (K1) 2-4 independent load+Process+dump pipelines (Parse, or Read by name from their own directories of a shared read-only simulated disk with imports fetched on demand; rejected texts included), (K2e) readers of the error accessors of a set whose Process reported errors, (K2) 2-6 readers of one processed set issuing the read operations the property lists, incl. simultaneous first-time namespace lookups. The simulated scheduler decides who proceeds at every lock acquisition/release and, with seeded probability, at every function entry and loop head; a task may be descheduled while holding a lock. Oracles: Go race detector (exit 66, attributed by the RUN protocol, confirmed in a fresh process), per-operation equality with the sequential result, bounded progress. Sampling of schedules, not proof.",
   note="Trusted: the scheduler adds no happens-before edge (plain variables in //go:norace code + runtime.Gosched under GOMAXPROCS=1; probe 1 in DESIGN.md appendix A); the race detector's bounded history can miss a race in one schedule, never invent one; sync.Pool's release/acquire annotations (fmt's buffer pool) hid races at random, so the -race harness is built with an overlay of sync/pool.go in which Put drops every object (within Pool's contract); process-wide state is kept cold (worker processes replaced every 20 runs, sequential expectation computed after the concurrent phase). Lookups of missing nodes are excluded (they write an error into the tree; the property speaks of existing nodes).",
   ref="DESIGN.md §4 C19",
   tech="deterministic simulation: seeded turn-based scheduler over real goroutines at AST-inserted lock/tick yield points, Go race detector as happens-before oracle, sequential results as reference"),
